@@ -104,8 +104,12 @@ func (self ValueString) Fields() (map[string]*Value, *VmInterrupt) {
 		}),
 		"substring": NewValueBuiltinFunction(func(executor Executor, cancelCtx *context.Context, span errors.Span, args ...Value) (*Value, *VmInterrupt) {
 			upper := args[0].(ValueInt).Inner
+			// negative bounds count from the end
+			if upper < 0 {
+				upper += int64(len(self.Inner))
+			}
 
-			if upper >= int64(len(self.Inner)) {
+			if upper < 0 || upper >= int64(len(self.Inner)) {
 				return nil, NewVMThrowInterrupt(span, "index out of range")
 			}
 
